@@ -20,6 +20,7 @@ import hashlib
 import logging
 import random
 import signal
+import zlib
 import struct
 from fractions import Fraction
 
@@ -30,9 +31,42 @@ LAT_ODD = 1.25      # … and for odd b (so bundle times are not monotone in sen
 def lat_of(b):
     return LAT if b % 2 == 0 else LAT_ODD
 MAIN_SEED = 424242  # seed given to the main thread's generator (generator id 0)
-NDRAW = 64
 
 _env = {}
+
+# Every builtin random function and argument form (one entry per branch that reads the generator).
+# harness/props/c10.py checks by `ast` that no function of builtins.py reading the generator is missing
+# and that the number of generator reads per function is the one this table was written for.
+FORM_NAMES = [
+    'rand:float', 'rand:int+', 'rand:int-', 'rand2:float', 'rand2:int+', 'rand2:int-',
+    'linrand:float', 'linrand:int+', 'linrand:int-', 'bilinrand:float', 'bilinrand:int+', 'bilinrand:int-',
+    'sum3rand:float', 'coin', 'rrand:float', 'rrand:int-asc', 'rrand:int-desc', 'exprand',
+    'xrand', 'xrand2:float', 'xrand2:int', 'gauss', 'choice', 'choices', 'shuffle', 'scramble', 'table_rand',
+]
+RGEN_READS = {'rand': 3, 'rand2': 3, 'linrand': 6, 'bilinrand': 6, 'sum3rand': 3, 'coin': 1, 'rrand': 3,
+              'exprand': 1, 'choice': 1, 'choices': 1, 'shuffle': 2}
+
+
+def make_forms(bi):
+    def shuffled():
+        l = list(range(6))
+        bi.shuffle(l)
+        return l
+    f = {
+        'rand:float': lambda: bi.rand(1.0), 'rand:int+': lambda: bi.rand(7), 'rand:int-': lambda: bi.rand(-7),
+        'rand2:float': lambda: bi.rand2(1.5), 'rand2:int+': lambda: bi.rand2(5), 'rand2:int-': lambda: bi.rand2(-5),
+        'linrand:float': lambda: bi.linrand(2.0), 'linrand:int+': lambda: bi.linrand(6),
+        'linrand:int-': lambda: bi.linrand(-6), 'bilinrand:float': lambda: bi.bilinrand(2.0),
+        'bilinrand:int+': lambda: bi.bilinrand(6), 'bilinrand:int-': lambda: bi.bilinrand(-6),
+        'sum3rand:float': lambda: bi.sum3rand(1.0), 'coin': lambda: bi.coin(0.5),
+        'rrand:float': lambda: bi.rrand(1.0, 3.0), 'rrand:int-asc': lambda: bi.rrand(2, 90),
+        'rrand:int-desc': lambda: bi.rrand(90, 2), 'exprand': lambda: bi.exprand(1.0, 8.0),
+        'xrand': lambda: bi.xrand(8, 3), 'xrand2:float': lambda: bi.xrand2(2.0), 'xrand2:int': lambda: bi.xrand2(5, 1),
+        'gauss': lambda: bi.gauss(0.0, 1.0), 'choice': lambda: bi.choice([1, 2, 3, 4, 5]),
+        'choices': lambda: bi.choices([1, 2, 3], [1, 2, 1]), 'shuffle': shuffled,
+        'scramble': lambda: bi.scramble(list(range(6))), 'table_rand': lambda: bi.table_rand([0.0, 1.0, 4.0]),
+    }
+    return [f[n] for n in FORM_NAMES]
 
 
 def fr(x):
@@ -60,7 +94,8 @@ class Prog:
         self.conds = [self.stm.Condition() for _ in range(nconds)]
         self.tempo = [self.clk.TempoClock(num(t)) for t in case['tempi']]
         self.addr = env['NetAddr']('127.0.0.1', 57110)
-        self.streams = {}
+        self.gens, self.draw_values, self.draw_diag = {}, [], []
+        self.forms = make_forms(env['bi'])
         run = self
 
         class RR(self.stm.Routine):
@@ -86,16 +121,27 @@ class Prog:
             return self.clk.AppClock
         return self.tempo[int(tok[1:])]
 
-    def gen_of(self, value):
-        """(generator id, index) of a drawn value, from the streams of the seeds in use."""
-        for seed, vals in self.streams.items():
-            if value in vals:
-                return seed, vals.index(value)
-        return '?', '?'
+    def register(self, obj, key):
+        """Remember a generator OBJECT under the seed it was created with (first registration wins)."""
+        if id(obj) not in self.gens:
+            self.gens[id(obj)] = [obj, key, 0]
 
-    def add_stream(self, gid, seed):
-        r = random.Random(seed)
-        self.streams[gid] = [r.random() for _ in range(NDRAW)]
+    def draw(self, i, form):
+        """Call one builtin random function; report WHICH generator object it read, by comparing the states of
+        all known generator objects before and after (independent of what the function computes)."""
+        before = {k: g[0].getstate() for k, g in self.gens.items()}
+        value = self.forms[form % len(self.forms)]()
+        changed = [k for k, g in self.gens.items() if g[0].getstate() != before[k]]
+        self.draw_values.append(f'{FORM_NAMES[form % len(FORM_NAMES)]}={value!r}')
+        if len(changed) == 1:
+            g = self.gens[changed[0]]
+            self.events.append(f'D:{i}:{g[1]}:{g[2]}')
+            g[2] += 1
+        else:
+            keys = [self.gens[k][1] for k in changed]
+            self.events.append(f'D:{i}:?:{len(changed)}')
+            self.draw_diag.append(f'{FORM_NAMES[form % len(FORM_NAMES)]} in routine {i} read generators {keys}')
+        return value
 
     def make_sub_body(self, i):
         """Body of a routine only ever pulled with next() from another body (a sub-stream)."""
@@ -108,10 +154,9 @@ class Prog:
                     yield num(a[1])
                 elif op == 'seed':
                     main.current_tt.rand_seed = a[1]
-                    run.add_stream(a[1], a[1])
+                    run.register(main.current_tt._rgen, a[1])
                 elif op == 'draw':
-                    g, n = run.gen_of(bi.rand(1.0))
-                    run.events.append(f'D:{i}:{g}:{n}')
+                    run.draw(i, a[1] if len(a) > 1 else 0)
         body.__qualname__ = f'sub{i}'
         return body
 
@@ -146,7 +191,7 @@ class Prog:
                 elif op == 'log':
                     run.events.append(f'L:{i}:{fr(clock.beats)}:{fr(clock.seconds - run.start)}')
                 elif op == 'send':
-                    run.addr.send_bundle(lat_of(a[1]), ['/c10', float(last), a[1]])
+                    run.addr.send_bundle(lat_of(a[1]), ['/c10', float(zlib.crc32(repr(last).encode()) % 4096), a[1]])
                     run.events.append(f'B:{i}:{a[1]}:{fr(clock.seconds - run.start)}')
                 elif op == 'spawn':
                     r = run.R[a[1]] or run.create(a[1])
@@ -180,7 +225,10 @@ class Prog:
                     run.conds[a[1]].signal()
                 elif op == 'seed':
                     main.current_tt.rand_seed = a[1]
-                    run.add_stream(a[1], a[1])
+                    run.register(main.current_tt._rgen, a[1])
+                elif op == 'yv':
+                    me, clock = yield {'T': True, 'F': False, 'N': None, 'S': 'later', 'O': object()}[a[1]]
+                    resumed(k + 1, clock)
                 elif op == 'pull':
                     if a[1] != i:
                         r = run.R[a[1]] or run.create(a[1], sub=True)
@@ -189,9 +237,7 @@ class Prog:
                         except stm.StopStream:
                             pass
                 elif op == 'draw':
-                    last = bi.rand(1.0)
-                    g, n = run.gen_of(last)
-                    run.events.append(f'D:{i}:{g}:{n}')
+                    last = run.draw(i, a[1] if len(a) > 1 else 0)
                 else:
                     raise AssertionError(a)
         body.__qualname__ = f'body{i}'
@@ -199,7 +245,7 @@ class Prog:
 
     def start_root(self):
         self.main._m_rgen.seed(MAIN_SEED)
-        self.add_stream('M', MAIN_SEED)
+        self.register(self.main._m_rgen, 'M')
         r0 = self.create(0)
         r0.play(self.clock(self.case['root']), 0)
 
@@ -240,7 +286,7 @@ def nrt_case(case):
                 bundles.append([fr(b[0] - lat_of(b[1][2])), b[1][2]])
     times = [fr(t) for _, t in p.moves]
     raw = hashlib.sha1(bytes(score.raw)).hexdigest() if score is not None else None
-    return {'raw_sha1': raw, 'trace': ' '.join(p.events) + f' | end={fr(end)} pend={pend}', 'bundles': bundles,
+    return {'raw_sha1': raw, 'draw_values': p.draw_values, 'draw_diag': p.draw_diag, 'trace': ' '.join(p.events) + f' | end={fr(end)} pend={pend}', 'bundles': bundles,
             'task_times': times, 'elapsed': fr(main.elapsed_time()), 'error': err}
 
 
@@ -362,8 +408,8 @@ def rt_case(case):
     if dead:
         err = (err or '') + f' dead threads: {dead}'
     return {'trace': ' '.join(p.events) + f' | end={fr(end - start)} pend={pend}', 'moves': moves,
-            'bundles': bundles, 'start': fr(start), 'error': err,
-            'phys': [fr(now - start) for _, now in p.moves]}
+            'bundles': bundles, 'start': fr(start), 'error': err, 'draw_values': p.draw_values,
+            'draw_diag': p.draw_diag, 'phys': [fr(now - start) for _, now in p.moves]}
 
 
 def run_rt(payload):
